@@ -103,3 +103,58 @@ def check_context_factories(kind: int, v: int) -> bool:
         return type(e) is sy.Event and type(e._cond) is sy.Condition and type(e._cond._lock) is sy.Lock
     finally:
         sy._SemLock, sy.resource_tracker, sy.util, sy.assert_spawning, sy.SemLock._rand = saved
+
+
+class _TooMany(Exception):
+    pass
+
+
+def check_wait_for(true_at: int, has_timeout: bool, timeout: int, step: int) -> bool:
+    """
+    pre: 0 <= true_at <= 4 and 1 <= timeout <= 6 and 1 <= step <= 3
+    post: _
+    """
+    # the real Condition.wait_for over a scripted predicate (true from its `true_at`-th evaluation on) and a clock
+    # that advances by `step` during every wait(): it returns the predicate's last value, true as soon as the
+    # predicate holds, false only once the timeout has expired; every wait gets the remaining time (None without
+    # a timeout) and no wait is issued with a non-positive remaining time
+    true_at, timeout, step = _conc(true_at, 4), _conc(timeout, 6), _conc(step, 3)
+    log = Log()
+    now = [100]
+    evals = [0]
+
+    def predicate():
+        evals[0] += 1
+        if evals[0] > 12:
+            raise _TooMany()
+        return evals[0] > true_at
+
+    def wait(t=None):
+        log.add("wait", t)
+        now[0] += step
+
+    fake = NS(wait=wait)
+    saved = sy._time
+    sy._time = lambda: now[0]
+    try:
+        try:
+            r = sy.Condition.wait_for(fake, predicate, timeout if has_timeout else None)
+        except _TooMany:
+            return False
+    finally:
+        sy._time = saved
+    waits = [e[1] for e in log]
+    if not has_timeout:
+        return r is True and waits == [None] * true_at and evals[0] == true_at + 1
+    # with a timeout: waits happen at clock 100, 100+step, ... while remaining > 0 and the predicate is false
+    want, t, k = [], 100, 1
+    res = true_at < 1
+    while not res:
+        remaining = 100 + timeout - t
+        if remaining <= 0:
+            break
+        want.append(remaining)
+        t += step
+        k += 1
+        res = k > true_at
+    return waits == want and r is res
